@@ -6,7 +6,7 @@
 Require Import Grits.Base Grits.ModeDefs Grits.Modes Grits.STypes Grits.Forms Grits.Infer Grits.Tokens Grits.Scan
                Grits.gen.LRTables Grits.gen.LRCert Grits.LR Grits.Actions Grits.Expand
                Grits.proofs.ScanProofs Grits.proofs.LRCheck Grits.proofs.LRProof Grits.proofs.LRCertInst
-               Grits.proofs.ParseTotal.
+               Grits.proofs.ParseTotal Grits.proofs.LRSound Grits.proofs.LRSoundInst Grits.proofs.ActionsTyped.
 Local Open Scope Z_scope.
 
 (* scanner: never out of fuel (fuel = length + 1), for every byte string *)
@@ -66,7 +66,20 @@ Theorem C11_table_indices_in_range : forall V (stk : list (Z * V)) inp st v rest
   end.
 Proof. exact table_indices_in_range. Qed.
 
+(* scan + parse of any text returns statements or an error: never a hang, and never a panic of the
+   model (the semantic actions never meet a value of the wrong shape, the accepted value is a
+   statement list) *)
+Theorem C11_parse_statements_result : forall s,
+  (exists l, parse_statements s = POk l) \/ (exists w, parse_statements s = PErr w).
+Proof. exact parse_statements_result. Qed.
+
+Theorem C11_no_action_error : forall fuel stk inp p,
+  is_path tE (map fst stk) -> stack_typed stk -> run sval tok_val reduce_action fuel stk inp <> LRActionError p.
+Proof. exact run_no_action_error. Qed.
+
 Print Assumptions C11_scan_total.
+Print Assumptions C11_parse_statements_result.
+Print Assumptions C11_no_action_error.
 Print Assumptions C11_scan_steps_linear.
 Print Assumptions C11_scan_tokens_linear.
 Print Assumptions C11_lr_terminates.
